@@ -853,16 +853,19 @@ func (e *LogEntry) WriteTo(w io.Writer) (_ int64, err error) {
 		}
 	}
 
-	// Write buffer size.
+	// Write buffer size and buffer with a single Write. The translate file
+	// appends entries through a flushed bufio.Writer, so one Write here is one
+	// write to the file whatever the entry size; with the length and the body
+	// written separately an entry larger than the buffer reached the file in
+	// two pieces and a process killed in between left a partial entry that
+	// replayEntries can not get past.
 	e.Length = uint64(buf.Len())
 	sz = binary.PutUvarint(b, e.Length)
-	if n, err := w.Write(b[:sz]); err != nil {
-		return int64(n), err
-	}
-
-	// Write buffer.
-	n, err := buf.WriteTo(w)
-	return int64(sz) + n, err
+	out := make([]byte, 0, sz+buf.Len())
+	out = append(out, b[:sz]...)
+	out = append(out, buf.Bytes()...)
+	n, err := w.Write(out)
+	return int64(n), err
 }
 
 type fieldKey struct {
